@@ -97,6 +97,41 @@ Source items (file :: item, line, hash of the item's source text):
   barter-instrument/src/index/mod.rs :: impl IndexedInstruments :: fn find_asset  (line 122)  sha256[:16]=a484caf19c924021
   barter-instrument/src/index/mod.rs :: impl IndexedInstruments :: fn find_instrument_index  (line 142)  sha256[:16]=c6ec355cf6ffeaeb
   barter-instrument/src/index/mod.rs :: impl IndexedInstruments :: fn find_instrument  (line 159)  sha256[:16]=8f3082c0021f2b8b
+  barter/src/engine/state/instrument/filter.rs :: enum InstrumentFilter  (line 11)  sha256[:16]=aa105573ff5ce9c3
+  barter/src/engine/state/instrument/filter.rs :: impl InstrumentFilter<ExchangeKey, AssetKey, InstrumentKey> :: fn exchanges  (line 23)  sha256[:16]=5725e4d730163c1c
+  barter/src/engine/state/instrument/filter.rs :: impl InstrumentFilter<ExchangeKey, AssetKey, InstrumentKey> :: fn instruments  (line 27)  sha256[:16]=f28e87153f2df0e1
+  barter/src/engine/state/instrument/filter.rs :: impl InstrumentFilter<ExchangeKey, AssetKey, InstrumentKey> :: fn underlyings  (line 31)  sha256[:16]=62c6fb9224b5d1ff
+  barter/src/engine/state/instrument/data.rs :: trait InstrumentDataState  (line 29)  sha256[:16]=8c8c8f181ddd1fb7
+  barter/src/engine/state/instrument/mod.rs :: struct InstrumentState  (line 246)  sha256[:16]=46968799ad50a2a6
+  barter/src/engine/state/instrument/mod.rs :: struct InstrumentStates  (line 47)  sha256[:16]=0b80631e7aaddeb7
+  barter/src/engine/state/instrument/mod.rs :: impl InstrumentStates<InstrumentData> :: fn filtered  (line 181)  sha256[:16]=25b354f7b99e37b4
+  barter/src/engine/state/instrument/mod.rs :: impl InstrumentStates<InstrumentData> :: fn instruments  (line 107)  sha256[:16]=d0f18d0c20b3dd0b
+  barter/src/engine/state/instrument/mod.rs :: impl InstrumentStates<InstrumentData> :: fn tear_sheets  (line 125)  sha256[:16]=aa1091a282f71124
+  barter/src/engine/state/instrument/mod.rs :: impl InstrumentStates<InstrumentData> :: fn positions  (line 137)  sha256[:16]=d8a8f199a3693ae9
+  barter/src/engine/state/instrument/mod.rs :: impl InstrumentStates<InstrumentData> :: fn orders  (line 149)  sha256[:16]=b684215e96b92640
+  barter/src/engine/state/instrument/mod.rs :: impl InstrumentStates<InstrumentData> :: fn instrument_datas  (line 158)  sha256[:16]=04f77382c42e4eb8
+  barter/src/engine/state/order/mod.rs :: impl OrderManager<ExchangeKey, InstrumentKey> for Orders<ExchangeKey, InstrumentKey> :: fn orders  (line 55)  sha256[:16]=b3a6c3217088b7c9
+  barter-execution/src/order/mod.rs :: impl Order<ExchangeKey, InstrumentKey, ActiveOrderState> :: fn to_request_cancel  (line 137)  sha256[:16]=d2ed599679187f21
+  barter/src/engine/state/mod.rs :: struct EngineState  (line 60)  sha256[:16]=a6fc6fd2a3098195
+  barter/src/strategy/close_positions.rs :: fn build_ioc_market_order_to_close_position  (line 102)  sha256[:16]=3adcffc9a31a3a62
+  barter/src/strategy/close_positions.rs :: fn close_open_positions_with_market_orders  (line 63)  sha256[:16]=acdf665a80c7015f
+  barter/src/engine/error.rs :: enum RecoverableEngineError  (line 24)  sha256[:16]=67042dd0ce2c1b60
+  barter/src/engine/error.rs :: enum UnrecoverableEngineError  (line 34)  sha256[:16]=c57ef6ebf92e56f0
+  barter/src/engine/error.rs :: enum EngineError  (line 12)  sha256[:16]=672ae43586cfd7ce
+  barter/src/execution/request.rs :: enum ExecutionRequest  (line 13)  sha256[:16]=3ab0cbecdcb31e1f
+  barter-integration/src/lib.rs :: trait Unrecoverable  (line 85)  sha256[:16]=eabdf96fe386f874
+  barter-integration/src/channel.rs :: trait Tx  (line 12)  sha256[:16]=323b0e33c4541fb9
+  barter/src/engine/execution_tx.rs :: trait ExecutionTxMap  (line 17)  sha256[:16]=c3489b314ea79a1b
+  barter/src/engine/action/send_requests.rs :: struct SendRequestsOutput  (line 160)  sha256[:16]=59bbbb3bd31a3bd6
+  barter/src/engine/action/send_requests.rs :: derive_new SendRequestsOutput  (line 160)  sha256[:16]=a6b42936f8fe8653
+  barter/src/engine/action/send_requests.rs :: impl SendRequestsOutput<Kind, ExchangeKey, InstrumentKey> :: fn is_empty  (line 167)  sha256[:16]=6d09d8013965ac8e
+  barter/src/engine/action/send_requests.rs :: impl SendRequestsOutput<Kind, ExchangeKey, InstrumentKey> :: fn unrecoverable_errors  (line 172)  sha256[:16]=0cd00a05da44f7d5
+  barter/src/engine/action/send_requests.rs :: struct SendCancelsAndOpensOutput  (line 126)  sha256[:16]=ff3f2e6a77220e8a
+  barter/src/engine/action/send_requests.rs :: derive_new SendCancelsAndOpensOutput  (line 126)  sha256[:16]=439fa6ec383ff97f
+  barter/src/engine/action/send_requests.rs :: impl SendCancelsAndOpensOutput<ExchangeKey, InstrumentKey> :: fn is_empty  (line 135)  sha256[:16]=77055367fad05ea6
+  barter/src/engine/action/send_requests.rs :: impl SendCancelsAndOpensOutput<ExchangeKey, InstrumentKey> :: fn unrecoverable_errors  (line 140)  sha256[:16]=733645641bd88087
+  barter/src/engine/action/send_requests.rs :: impl SendRequests<ExchangeKey, InstrumentKey> for Engine :: fn send_request  (line 75)  sha256[:16]=37ba7b58dcd4b2ca
+  barter/src/engine/action/send_requests.rs :: impl SendRequests<ExchangeKey, InstrumentKey> for Engine :: fn send_requests  (line 53)  sha256[:16]=82cf6fd2ab91237d
 -/
 set_option linter.unusedVariables false   -- e.g. a binder that only a log macro reads
 namespace BarterModel.Generated.Machines
@@ -145,6 +180,18 @@ Machines3.lean)
 * `let xs = it.collect();` whose target collection only a LATER use determines (`S { xs, .. }`) binds the item list; it is
   converted where it is used at a collection type (Rust infers the one target from that use as well).
 * `res.expect(..)` / `res.unwrap()` on a `Result`: the `Err` arm is `Rust.unreachable`; `res.ok()` forgets the error.
+* barter-integration's `OneOrMany<T>` / `NoneOneOrMany<T>` (another crate; modelled and tied to the code by the sub-check C03N)
+  are part of the FIXED vocabulary: `Rust.OneOrMany` / `Rust.NoneOneOrMany` below with `contains`, `iter` / `as_ref` (`to_list`),
+  `len`, `is_none` / `is_empty`, `from(Vec)` / `from_iter` / `collect()` (by the number of items), `from(Option)`, `default()`,
+  the constructors and `extend` (arm by arm as in the source).  `itertools::Either::Left(it)` / `Right(it)` of two iterator
+  types with the same item is the wrapped iterator; `std::iter::empty()` / `once(x)` are `[]` / `[x]`.
+* An element-wise adaptor (`map`, `filter`, `filter_map`) of the UNORDERED `values()` of a `HashMap` stays a `Rust.Bag`, and so
+  does `flat_map` with a closure that yields one: hash order still cannot be observed -- handing such a collection on where an
+  ORDERED iterator is required (`impl IntoIterator`, `collect()` into a `Vec`, ..) is rejected.
+* `for x in <ordered iterator> { body }` is a LEFT FOLD over the items, in order, whose state is the tuple of the mutable
+  variables the body mentions: `List.foldl (fun state x => body; state') state items`.  The body may assign, `push`, call
+  `&mut self` methods and branch; `return` / `?` inside it are rejected, `break` / `continue` / `while` / `loop` stay
+  rejected, and so does a `for` over a `HashMap`.  `let mut v = Vec::new();` may get its element type from a later `push`.
 * `format!`: an argument that has no coding as a `Rust.FmtArg` (a struct, a list, ..) is not recorded (the text of a message
   is not modelled).
 * `a == b` / `a != b` on values of a FULLY translated struct whose `#[derive(..)]` lists `PartialEq` is field-wise equality:
@@ -195,6 +242,78 @@ def Rust.Vec.dedup {T : Type} [DecidableEq T] : List T → List T
   | [] => []
   | [a] => [a]
   | a :: b :: t => if a = b then Rust.Vec.dedup (b :: t) else a :: Rust.Vec.dedup (b :: t)
+
+/-- barter-integration `OneOrMany<T>` (collection/one_or_many.rs): part of the FIXED vocabulary (not regenerated; the sub-check
+C03N models the two collection types and ties them to the code). -/
+inductive Rust.OneOrMany (T : Type) where
+  | One (x : T)
+  | Many (xs : List T)
+  deriving DecidableEq, Repr
+
+/-- `as_ref()` / `iter()` / `into_iter()` / `into_vec()`: the items in order. -/
+def Rust.OneOrMany.to_list {T : Type} : Rust.OneOrMany T → List T
+  | .One x => [x]
+  | .Many xs => xs
+
+/-- `OneOrMany::contains`. -/
+def Rust.OneOrMany.contains {T : Type} [DecidableEq T] (c : Rust.OneOrMany T) (x : T) : Bool :=
+  match c with
+  | .One v => decide (v = x)
+  | .Many vs => List.elem x vs
+
+/-- `OneOrMany::from_iter`: exactly one item is `One`, anything else -- the EMPTY iterator too -- is `Many`. -/
+def Rust.OneOrMany.from_iter {T : Type} : List T → Rust.OneOrMany T
+  | [x] => .One x
+  | xs => .Many xs
+
+/-- barter-integration `NoneOneOrMany<T>` (collection/none_one_or_many.rs): fixed vocabulary like `OneOrMany`. -/
+inductive Rust.NoneOneOrMany (T : Type) where
+  | None
+  | One (x : T)
+  | Many (xs : List T)
+  deriving DecidableEq, Repr
+
+instance {T : Type} : Inhabited (Rust.NoneOneOrMany T) := ⟨.None⟩
+
+def Rust.NoneOneOrMany.to_list {T : Type} : Rust.NoneOneOrMany T → List T
+  | .None => []
+  | .One x => [x]
+  | .Many xs => xs
+
+def Rust.NoneOneOrMany.is_none {T : Type} : Rust.NoneOneOrMany T → Bool
+  | .None => true
+  | _ => false
+
+def Rust.NoneOneOrMany.contains {T : Type} [DecidableEq T] (c : Rust.NoneOneOrMany T) (x : T) : Bool :=
+  List.elem x c.to_list
+
+/-- `NoneOneOrMany::from(Vec)` = `from_iter`: by the number of items 0 / 1 / more. -/
+def Rust.NoneOneOrMany.from_vec {T : Type} : List T → Rust.NoneOneOrMany T
+  | [] => .None
+  | [x] => .One x
+  | xs => .Many xs
+
+def Rust.NoneOneOrMany.from_iter {T : Type} (l : List T) : Rust.NoneOneOrMany T := Rust.NoneOneOrMany.from_vec l
+
+def Rust.NoneOneOrMany.from_option {T : Type} : Option T → Rust.NoneOneOrMany T
+  | none => .None
+  | some x => .One x
+
+/-- `NoneOneOrMany::extend(self, other)` arm by arm as in the source: NOTE `(One(left), Many(right))` pushes `left` LAST. -/
+def Rust.NoneOneOrMany.extend {T : Type} (self : Rust.NoneOneOrMany T) (other : List T) : Rust.NoneOneOrMany T :=
+  match self, Rust.NoneOneOrMany.from_iter other with
+  | .None, right => right
+  | left, .None => left
+  | .One l, .One r => .Many [l, r]
+  | .One l, .Many r => .Many (r ++ [l])
+  | .Many l, .One r => .Many (l ++ [r])
+  | .Many l, .Many r => .Many (l ++ r)
+
+/-- itertools `partition_result()`: the `Ok` payloads and the `Err` payloads, each in the order of the iterator. -/
+def Rust.Iter.partition_result {T E : Type} : List (Except E T) → List T × List E
+  | [] => ([], [])
+  | Except.ok x :: rest => ((x :: (Rust.Iter.partition_result rest).1), (Rust.Iter.partition_result rest).2)
+  | Except.error e :: rest => ((Rust.Iter.partition_result rest).1, (e :: (Rust.Iter.partition_result rest).2))
 
 /-- `iter.enumerate()` counting from `i`. -/
 def Rust.Iter.enumerate_from {T : Type} (i : Nat) : List T → List (Nat × T)
@@ -964,5 +1083,252 @@ deriving instance Inhabited for InstrumentFull
 /-- generated from `impl IndexedInstruments :: fn find_instrument` (barter-instrument/src/index/mod.rs:159) -/
 @[gen_indexer] def IndexedInstruments.find_instrument (self : IndexedInstruments) (index : _root_.BarterModel.Generated.Machines.InstrumentIndex) : Except IndexError (InstrumentFull (Keyed _root_.BarterModel.Generated.Machines.ExchangeIndex _root_.BarterModel.Generated.Machines.ExchangeId) _root_.BarterModel.Generated.Machines.AssetIndex) :=
   (match (Option.map (fun keyed => keyed.value) (List.find? (fun keyed => (decide (keyed.key = index))) self.instruments)) with | some some_1 => Except.ok some_1 | none => Except.error (IndexError.InstrumentIndex (Rust.Str.mk [])))
+
+/-! ## barter/src/engine/state/instrument/filter.rs -/
+
+/-- generated from `enum InstrumentFilter` (barter/src/engine/state/instrument/filter.rs:11) -/
+inductive InstrumentFilter (ExchangeKey : Type) (AssetKey : Type) (InstrumentKey : Type) where
+  | None
+  | Exchanges (f0 : Rust.OneOrMany ExchangeKey)
+  | Instruments (f0 : Rust.OneOrMany InstrumentKey)
+  | Underlyings (f0 : Rust.OneOrMany (Underlying AssetKey))
+  deriving DecidableEq, Repr
+
+/-- generated from `impl InstrumentFilter<ExchangeKey, AssetKey, InstrumentKey> :: fn exchanges` (barter/src/engine/state/instrument/filter.rs:23) -/
+@[gen_filters_actions] def InstrumentFilter.exchanges {ExchangeKey : Type} [DecidableEq ExchangeKey] {AssetKey : Type} [DecidableEq AssetKey] {InstrumentKey : Type} [DecidableEq InstrumentKey] (exchanges : List ExchangeKey) : InstrumentFilter ExchangeKey AssetKey InstrumentKey :=
+  (InstrumentFilter.Exchanges (Rust.OneOrMany.from_iter exchanges))
+
+/-- generated from `impl InstrumentFilter<ExchangeKey, AssetKey, InstrumentKey> :: fn instruments` (barter/src/engine/state/instrument/filter.rs:27) -/
+@[gen_filters_actions] def InstrumentFilter.instruments {ExchangeKey : Type} [DecidableEq ExchangeKey] {AssetKey : Type} [DecidableEq AssetKey] {InstrumentKey : Type} [DecidableEq InstrumentKey] (instruments : List InstrumentKey) : InstrumentFilter ExchangeKey AssetKey InstrumentKey :=
+  (InstrumentFilter.Instruments (Rust.OneOrMany.from_iter instruments))
+
+/-- generated from `impl InstrumentFilter<ExchangeKey, AssetKey, InstrumentKey> :: fn underlyings` (barter/src/engine/state/instrument/filter.rs:31) -/
+@[gen_filters_actions] def InstrumentFilter.underlyings {ExchangeKey : Type} [DecidableEq ExchangeKey] {AssetKey : Type} [DecidableEq AssetKey] {InstrumentKey : Type} [DecidableEq InstrumentKey] (exchanges : List (Underlying AssetKey)) : InstrumentFilter ExchangeKey AssetKey InstrumentKey :=
+  (InstrumentFilter.Underlyings (Rust.OneOrMany.from_iter exchanges))
+
+/-! ## barter/src/engine/state/instrument/data.rs -/
+
+-- a trait as the record of its methods (type parameters: Self, the trait's own, its associated types): a call `x.m(..)` on a value of a type parameter `T` is `T_InstrumentDataState.m x ..` of an explicit parameter `T_InstrumentDataState : InstrumentDataState T ..` (nothing is assumed about the implementation); `&mut self` methods return the new `Self` with their result
+/-- generated from `trait InstrumentDataState` (barter/src/engine/state/instrument/data.rs:29) -/
+structure InstrumentDataState (Self : Type) (ExchangeKey : Type) (AssetKey : Type) (InstrumentKey : Type) (MarketEventKind : Type) where
+  price : Self → _root_.Option Rat
+
+/-! ## barter/src/engine/state/instrument/mod.rs -/
+
+/-- generated from `struct InstrumentState` (barter/src/engine/state/instrument/mod.rs:246) -/
+structure InstrumentState (InstrumentData : Type) (ExchangeKey : Type) (AssetKey : Type) (InstrumentKey : Type) where
+  key : InstrumentKey
+  instrument : InstrumentFull ExchangeKey AssetKey
+  tear_sheet : TearSheetGenerator
+  position : PositionManager InstrumentKey
+  orders : Orders ExchangeKey InstrumentKey
+  data : InstrumentData
+  deriving DecidableEq, Repr
+
+/-- generated from `struct InstrumentStates` (barter/src/engine/state/instrument/mod.rs:47) -/
+structure InstrumentStates (InstrumentData : Type) (ExchangeKey : Type) (AssetKey : Type) (InstrumentKey : Type) where
+  f0 : Rust.IndexMap InstrumentNameInternal (InstrumentState InstrumentData ExchangeKey AssetKey InstrumentKey)
+  deriving DecidableEq, Repr
+
+/-- generated from `impl InstrumentStates<InstrumentData> :: fn filtered` (barter/src/engine/state/instrument/mod.rs:181) -/
+@[gen_filters_actions] def InstrumentStates.filtered {InstrumentData : Type} [DecidableEq InstrumentData] (self : InstrumentStates InstrumentData _root_.BarterModel.Generated.Machines.ExchangeIndex _root_.BarterModel.Generated.Machines.AssetIndex _root_.BarterModel.Generated.Machines.InstrumentIndex) (filter : InstrumentFilter _root_.BarterModel.Generated.Machines.ExchangeIndex _root_.BarterModel.Generated.Machines.AssetIndex _root_.BarterModel.Generated.Machines.InstrumentIndex) : List (InstrumentState InstrumentData _root_.BarterModel.Generated.Machines.ExchangeIndex _root_.BarterModel.Generated.Machines.AssetIndex _root_.BarterModel.Generated.Machines.InstrumentIndex) :=
+  (match filter with
+  | InstrumentFilter.None =>
+      (Rust.IndexMap.values self.f0)
+  | InstrumentFilter.Exchanges exchanges =>
+      (List.filter (fun state => (Rust.OneOrMany.contains exchanges state.instrument.exchange)) (Rust.IndexMap.values self.f0))
+  | InstrumentFilter.Instruments instruments =>
+      (List.filter (fun state => (Rust.OneOrMany.contains instruments state.key)) (Rust.IndexMap.values self.f0))
+  | InstrumentFilter.Underlyings underlying =>
+      (List.filter (fun state => (Rust.OneOrMany.contains underlying state.instrument.underlying)) (Rust.IndexMap.values self.f0)))
+
+/-- generated from `impl InstrumentStates<InstrumentData> :: fn instruments` (barter/src/engine/state/instrument/mod.rs:107) -/
+@[gen_filters_actions] def InstrumentStates.instruments {InstrumentData : Type} [DecidableEq InstrumentData] (self : InstrumentStates InstrumentData _root_.BarterModel.Generated.Machines.ExchangeIndex _root_.BarterModel.Generated.Machines.AssetIndex _root_.BarterModel.Generated.Machines.InstrumentIndex) (filter : InstrumentFilter _root_.BarterModel.Generated.Machines.ExchangeIndex _root_.BarterModel.Generated.Machines.AssetIndex _root_.BarterModel.Generated.Machines.InstrumentIndex) : List (InstrumentState InstrumentData _root_.BarterModel.Generated.Machines.ExchangeIndex _root_.BarterModel.Generated.Machines.AssetIndex _root_.BarterModel.Generated.Machines.InstrumentIndex) :=
+  (InstrumentStates.filtered self filter)
+
+/-- generated from `impl InstrumentStates<InstrumentData> :: fn tear_sheets` (barter/src/engine/state/instrument/mod.rs:125) -/
+@[gen_filters_actions] def InstrumentStates.tear_sheets {InstrumentData : Type} [DecidableEq InstrumentData] (self : InstrumentStates InstrumentData _root_.BarterModel.Generated.Machines.ExchangeIndex _root_.BarterModel.Generated.Machines.AssetIndex _root_.BarterModel.Generated.Machines.InstrumentIndex) (filter : InstrumentFilter _root_.BarterModel.Generated.Machines.ExchangeIndex _root_.BarterModel.Generated.Machines.AssetIndex _root_.BarterModel.Generated.Machines.InstrumentIndex) : List TearSheetGenerator :=
+  (List.map (fun state => state.tear_sheet) (InstrumentStates.filtered self filter))
+
+/-- generated from `impl InstrumentStates<InstrumentData> :: fn positions` (barter/src/engine/state/instrument/mod.rs:137) -/
+@[gen_filters_actions] def InstrumentStates.positions {InstrumentData : Type} [DecidableEq InstrumentData] (self : InstrumentStates InstrumentData _root_.BarterModel.Generated.Machines.ExchangeIndex _root_.BarterModel.Generated.Machines.AssetIndex _root_.BarterModel.Generated.Machines.InstrumentIndex) (filter : InstrumentFilter _root_.BarterModel.Generated.Machines.ExchangeIndex _root_.BarterModel.Generated.Machines.AssetIndex _root_.BarterModel.Generated.Machines.InstrumentIndex) : List (PositionManager _root_.BarterModel.Generated.Machines.InstrumentIndex) :=
+  (List.map (fun state => state.position) (InstrumentStates.filtered self filter))
+
+/-- generated from `impl InstrumentStates<InstrumentData> :: fn orders` (barter/src/engine/state/instrument/mod.rs:149) -/
+@[gen_filters_actions] def InstrumentStates.orders {InstrumentData : Type} [DecidableEq InstrumentData] (self : InstrumentStates InstrumentData _root_.BarterModel.Generated.Machines.ExchangeIndex _root_.BarterModel.Generated.Machines.AssetIndex _root_.BarterModel.Generated.Machines.InstrumentIndex) (filter : InstrumentFilter _root_.BarterModel.Generated.Machines.ExchangeIndex _root_.BarterModel.Generated.Machines.AssetIndex _root_.BarterModel.Generated.Machines.InstrumentIndex) : List (Orders _root_.BarterModel.Generated.Machines.ExchangeIndex _root_.BarterModel.Generated.Machines.InstrumentIndex) :=
+  (List.map (fun state => state.orders) (InstrumentStates.filtered self filter))
+
+/-- generated from `impl InstrumentStates<InstrumentData> :: fn instrument_datas` (barter/src/engine/state/instrument/mod.rs:158) -/
+@[gen_filters_actions] def InstrumentStates.instrument_datas {InstrumentData : Type} [DecidableEq InstrumentData] (self : InstrumentStates InstrumentData _root_.BarterModel.Generated.Machines.ExchangeIndex _root_.BarterModel.Generated.Machines.AssetIndex _root_.BarterModel.Generated.Machines.InstrumentIndex) (filter : InstrumentFilter _root_.BarterModel.Generated.Machines.ExchangeIndex _root_.BarterModel.Generated.Machines.AssetIndex _root_.BarterModel.Generated.Machines.InstrumentIndex) : List InstrumentData :=
+  (List.map (fun state => state.data) (InstrumentStates.filtered self filter))
+
+/-! ## barter/src/engine/state/order/mod.rs -/
+
+/-- generated from `impl OrderManager<ExchangeKey, InstrumentKey> for Orders<ExchangeKey, InstrumentKey> :: fn orders` (barter/src/engine/state/order/mod.rs:55) -/
+@[gen_filters_actions] def Orders.orders {ExchangeKey : Type} [DecidableEq ExchangeKey] {InstrumentKey : Type} [DecidableEq InstrumentKey] (self : Orders ExchangeKey InstrumentKey) : Rust.Bag (Order ExchangeKey InstrumentKey ActiveOrderState) :=
+  (Rust.Map.values self.f0)
+
+/-! ## barter-execution/src/order/mod.rs -/
+
+/-- generated from `impl Order<ExchangeKey, InstrumentKey, ActiveOrderState> :: fn to_request_cancel` (barter-execution/src/order/mod.rs:137) -/
+@[gen_filters_actions] def Order.to_request_cancel {ExchangeKey : Type} [DecidableEq ExchangeKey] {InstrumentKey : Type} [DecidableEq InstrumentKey] (self : Order ExchangeKey InstrumentKey ActiveOrderState) : _root_.Option (OrderEvent RequestCancel ExchangeKey InstrumentKey) :=
+  (match self with
+  | ⟨key, _, _, _, _, _, state⟩ =>
+    (match state with
+    | ActiveOrderState.OpenInFlight _ =>
+      let request_cancel : RequestCancel := { id := none : RequestCancel }
+      (some ({ key := key, state := request_cancel : OrderEvent RequestCancel ExchangeKey InstrumentKey }))
+    | ActiveOrderState.Open «open» =>
+      let request_cancel : RequestCancel := { id := (some «open».id) : RequestCancel }
+      (some ({ key := key, state := request_cancel : OrderEvent RequestCancel ExchangeKey InstrumentKey }))
+    | _ =>
+      none))
+
+/-! ## barter/src/engine/state/mod.rs -/
+
+-- restricted to the fields instruments; not translated (no translated function may read them; translated code cannot construct the struct): trading : TradingState, global : GlobalData, connectivity : ConnectivityStates, assets : AssetStates
+/-- generated from `struct EngineState` (barter/src/engine/state/mod.rs:60) -/
+structure EngineStateI (GlobalData : Type) (InstrumentData : Type) where
+  instruments : InstrumentStates InstrumentData _root_.BarterModel.Generated.Machines.ExchangeIndex _root_.BarterModel.Generated.Machines.AssetIndex _root_.BarterModel.Generated.Machines.InstrumentIndex
+  deriving DecidableEq, Repr
+
+/-! ## barter/src/strategy/close_positions.rs -/
+
+/-- generated from `fn build_ioc_market_order_to_close_position` (barter/src/strategy/close_positions.rs:102) -/
+@[gen_filters_actions] def build_ioc_market_order_to_close_position {ExchangeKey : Type} [DecidableEq ExchangeKey] {AssetKey : Type} [DecidableEq AssetKey] {InstrumentKey : Type} [DecidableEq InstrumentKey] (exchange : ExchangeKey) (position : Position AssetKey InstrumentKey) (strategy_id : StrategyId) (price : Rat) (gen_cid : Unit → ClientOrderId) : OrderEvent RequestOpen ExchangeKey InstrumentKey :=
+  (OrderEvent.mk ({ exchange := exchange, instrument := position.instrument, strategy := strategy_id, cid := (gen_cid ()) : OrderKey ExchangeKey InstrumentKey }) ((RequestOpen.mk ((match position.side with
+  | Side.Buy =>
+      Side.Sell
+  | Side.Sell =>
+      Side.Buy)) price position.quantity_abs OrderKind.Market TimeInForce.ImmediateOrCancel : RequestOpen)) : OrderEvent RequestOpen ExchangeKey InstrumentKey)
+
+/-- generated from `fn close_open_positions_with_market_orders` (barter/src/strategy/close_positions.rs:63) -/
+@[gen_filters_actions] def close_open_positions_with_market_orders {GlobalData : Type} [DecidableEq GlobalData] {InstrumentData : Type} [DecidableEq InstrumentData] {InstrumentData_MarketEventKind : Type} [DecidableEq InstrumentData_MarketEventKind] (InstrumentData_InstrumentDataState : InstrumentDataState InstrumentData _root_.BarterModel.Generated.Machines.ExchangeIndex _root_.BarterModel.Generated.Machines.AssetIndex _root_.BarterModel.Generated.Machines.InstrumentIndex InstrumentData_MarketEventKind) (strategy_id : StrategyId) (state : EngineStateI GlobalData InstrumentData) (filter : InstrumentFilter _root_.BarterModel.Generated.Machines.ExchangeIndex _root_.BarterModel.Generated.Machines.AssetIndex _root_.BarterModel.Generated.Machines.InstrumentIndex) (gen_cid : (InstrumentState InstrumentData _root_.BarterModel.Generated.Machines.ExchangeIndex _root_.BarterModel.Generated.Machines.AssetIndex _root_.BarterModel.Generated.Machines.InstrumentIndex) → ClientOrderId) : (List (OrderEvent RequestCancel _root_.BarterModel.Generated.Machines.ExchangeIndex _root_.BarterModel.Generated.Machines.InstrumentIndex)) × (List (OrderEvent RequestOpen _root_.BarterModel.Generated.Machines.ExchangeIndex _root_.BarterModel.Generated.Machines.InstrumentIndex)) :=
+  let open_requests : List (OrderEvent RequestOpen _root_.BarterModel.Generated.Machines.ExchangeIndex _root_.BarterModel.Generated.Machines.InstrumentIndex) := (List.filterMap (fun state_1 => (
+      (match state_1.position.current with
+      | none => none
+      | some position =>
+        (match (InstrumentData_InstrumentDataState.price state_1.data) with
+        | none => none
+        | some price =>
+          (some (build_ioc_market_order_to_close_position state_1.instrument.exchange position strategy_id price (fun (_ : Unit) => (gen_cid state_1)))))))) (InstrumentStates.instruments state.instruments filter))
+  ([], open_requests)
+
+/-! ## barter/src/engine/error.rs -/
+
+/-- generated from `enum RecoverableEngineError` (barter/src/engine/error.rs:24) -/
+inductive RecoverableEngineError where
+  | ExecutionChannelUnhealthy (f0 : Rust.Str)
+  deriving DecidableEq, Repr
+
+/-- generated from `enum UnrecoverableEngineError` (barter/src/engine/error.rs:34) -/
+inductive UnrecoverableEngineError where
+  | IndexError (f0 : _root_.BarterModel.Generated.Machines.IndexError)
+  | ExecutionChannelTerminated (f0 : Rust.Str)
+  | Custom (f0 : Rust.Str)
+  deriving DecidableEq, Repr
+
+/-- generated from `enum EngineError` (barter/src/engine/error.rs:12) -/
+inductive EngineError where
+  | Recoverable (f0 : RecoverableEngineError)
+  | Unrecoverable (f0 : UnrecoverableEngineError)
+  deriving DecidableEq, Repr
+
+/-! ## barter/src/execution/request.rs -/
+
+/-- generated from `enum ExecutionRequest` (barter/src/execution/request.rs:13) -/
+inductive ExecutionRequest (ExchangeKey : Type) (InstrumentKey : Type) where
+  | Shutdown
+  | Cancel (f0 : OrderEvent RequestCancel ExchangeKey InstrumentKey)
+  | Open (f0 : OrderEvent RequestOpen ExchangeKey InstrumentKey)
+  deriving DecidableEq, Repr
+
+/-! ## barter-integration/src/lib.rs -/
+
+-- a trait as the record of its methods (type parameters: Self, the trait's own, its associated types): a call `x.m(..)` on a value of a type parameter `T` is `T_Unrecoverable.m x ..` of an explicit parameter `T_Unrecoverable : Unrecoverable T ..` (nothing is assumed about the implementation); `&mut self` methods return the new `Self` with their result
+/-- generated from `trait Unrecoverable` (barter-integration/src/lib.rs:85) -/
+structure Unrecoverable (Self : Type) where
+  is_unrecoverable : Self → Bool
+
+/-! ## barter-integration/src/channel.rs -/
+
+-- a trait as the record of its methods (type parameters: Self, the trait's own, its associated types): a call `x.m(..)` on a value of a type parameter `T` is `T_Tx.m x ..` of an explicit parameter `T_Tx : Tx T ..` (nothing is assumed about the implementation); `&mut self` methods return the new `Self` with their result
+/-- generated from `trait Tx` (barter-integration/src/channel.rs:12) -/
+structure Tx (Self : Type) (Item : Type) (Error : Type) where
+  send : {ItemT : Type} → [DecidableEq ItemT] → (ItemT → Item) → Self → ItemT → Except Error Unit
+
+/-! ## barter/src/engine/execution_tx.rs -/
+
+-- a trait as the record of its methods (type parameters: Self, the trait's own, its associated types): a call `x.m(..)` on a value of a type parameter `T` is `T_ExecutionTxMap.m x ..` of an explicit parameter `T_ExecutionTxMap : ExecutionTxMap T ..` (nothing is assumed about the implementation); `&mut self` methods return the new `Self` with their result
+/-- generated from `trait ExecutionTxMap` (barter/src/engine/execution_tx.rs:17) -/
+structure ExecutionTxMap (Self : Type) (ExchangeKey : Type) (InstrumentKey : Type) (ExecutionTx : Type) where
+  find : Self → ExchangeKey → Except UnrecoverableEngineError ExecutionTx
+  iter : Self → List ExecutionTx
+
+/-! ## barter/src/engine/action/send_requests.rs -/
+
+/-- generated from `struct SendRequestsOutput` (barter/src/engine/action/send_requests.rs:160) -/
+structure SendRequestsOutput (Kind : Type) (ExchangeKey : Type) (InstrumentKey : Type) where
+  sent : Rust.NoneOneOrMany (OrderEvent Kind ExchangeKey InstrumentKey)
+  errors : Rust.NoneOneOrMany ((OrderEvent Kind ExchangeKey InstrumentKey) × EngineError)
+  deriving DecidableEq, Repr
+
+/-- generated from `derive_new SendRequestsOutput` (barter/src/engine/action/send_requests.rs:160) -/
+@[gen_send_requests] def SendRequestsOutput.new {Kind : Type} [DecidableEq Kind] {ExchangeKey : Type} [DecidableEq ExchangeKey] {InstrumentKey : Type} [DecidableEq InstrumentKey] (sent : Rust.NoneOneOrMany (OrderEvent Kind ExchangeKey InstrumentKey)) (errors : Rust.NoneOneOrMany ((OrderEvent Kind ExchangeKey InstrumentKey) × EngineError)) : SendRequestsOutput Kind ExchangeKey InstrumentKey :=
+  { sent := sent, errors := errors }
+
+/-- generated from `impl SendRequestsOutput<Kind, ExchangeKey, InstrumentKey> :: fn is_empty` (barter/src/engine/action/send_requests.rs:167) -/
+@[gen_send_requests] def SendRequestsOutput.is_empty {Kind : Type} [DecidableEq Kind] {ExchangeKey : Type} [DecidableEq ExchangeKey] {InstrumentKey : Type} [DecidableEq InstrumentKey] (self : SendRequestsOutput Kind ExchangeKey InstrumentKey) : Bool :=
+  (decide (((Rust.NoneOneOrMany.is_none self.sent) = true) ∧ ((Rust.NoneOneOrMany.is_none self.errors) = true)))
+
+/-- generated from `impl SendRequestsOutput<Kind, ExchangeKey, InstrumentKey> :: fn unrecoverable_errors` (barter/src/engine/action/send_requests.rs:172) -/
+@[gen_send_requests] def SendRequestsOutput.unrecoverable_errors {Kind : Type} [DecidableEq Kind] {ExchangeKey : Type} [DecidableEq ExchangeKey] {InstrumentKey : Type} [DecidableEq InstrumentKey] (self : SendRequestsOutput Kind ExchangeKey InstrumentKey) : Rust.NoneOneOrMany UnrecoverableEngineError :=
+  (Rust.NoneOneOrMany.from_iter ((List.filterMap (fun (_order, error) => (match error with
+    | EngineError.Unrecoverable error_1 =>
+        (some error_1)
+    | _ =>
+        none)) (Rust.NoneOneOrMany.to_list self.errors))))
+
+/-- generated from `struct SendCancelsAndOpensOutput` (barter/src/engine/action/send_requests.rs:126) -/
+structure SendCancelsAndOpensOutput (ExchangeKey : Type) (InstrumentKey : Type) where
+  cancels : SendRequestsOutput RequestCancel ExchangeKey InstrumentKey
+  opens : SendRequestsOutput RequestOpen ExchangeKey InstrumentKey
+  deriving DecidableEq, Repr
+
+/-- generated from `derive_new SendCancelsAndOpensOutput` (barter/src/engine/action/send_requests.rs:126) -/
+@[gen_send_requests] def SendCancelsAndOpensOutput.new {ExchangeKey : Type} [DecidableEq ExchangeKey] {InstrumentKey : Type} [DecidableEq InstrumentKey] (cancels : SendRequestsOutput RequestCancel ExchangeKey InstrumentKey) (opens : SendRequestsOutput RequestOpen ExchangeKey InstrumentKey) : SendCancelsAndOpensOutput ExchangeKey InstrumentKey :=
+  { cancels := cancels, opens := opens }
+
+/-- generated from `impl SendCancelsAndOpensOutput<ExchangeKey, InstrumentKey> :: fn is_empty` (barter/src/engine/action/send_requests.rs:135) -/
+@[gen_send_requests] def SendCancelsAndOpensOutput.is_empty {ExchangeKey : Type} [DecidableEq ExchangeKey] {InstrumentKey : Type} [DecidableEq InstrumentKey] (self : SendCancelsAndOpensOutput ExchangeKey InstrumentKey) : Bool :=
+  (decide (((SendRequestsOutput.is_empty self.cancels) = true) ∧ ((SendRequestsOutput.is_empty self.opens) = true)))
+
+/-- generated from `impl SendCancelsAndOpensOutput<ExchangeKey, InstrumentKey> :: fn unrecoverable_errors` (barter/src/engine/action/send_requests.rs:140) -/
+@[gen_send_requests] def SendCancelsAndOpensOutput.unrecoverable_errors {ExchangeKey : Type} [DecidableEq ExchangeKey] {InstrumentKey : Type} [DecidableEq InstrumentKey] (self : SendCancelsAndOpensOutput ExchangeKey InstrumentKey) : Rust.NoneOneOrMany UnrecoverableEngineError :=
+  (Rust.NoneOneOrMany.extend (SendRequestsOutput.unrecoverable_errors self.cancels) (Rust.NoneOneOrMany.to_list (SendRequestsOutput.unrecoverable_errors self.opens)))
+
+/-- generated from `impl SendRequests<ExchangeKey, InstrumentKey> for Engine :: fn send_request` (barter/src/engine/action/send_requests.rs:75) -/
+@[gen_send_requests] def Engine.send_request {Clock : Type} [DecidableEq Clock] {State : Type} [DecidableEq State] {ExecutionTxs : Type} [DecidableEq ExecutionTxs] {Strategy : Type} [DecidableEq Strategy] {Risk : Type} [DecidableEq Risk] {ExchangeKey : Type} [DecidableEq ExchangeKey] {InstrumentKey : Type} [DecidableEq InstrumentKey] {Kind : Type} [DecidableEq Kind] {ExecutionTxs_ExecutionTx : Type} [DecidableEq ExecutionTxs_ExecutionTx] {ExecutionTxs_ExecutionTx_Error : Type} [DecidableEq ExecutionTxs_ExecutionTx_Error] (ExecutionTxs_ExecutionTxMap : ExecutionTxMap ExecutionTxs ExchangeKey InstrumentKey ExecutionTxs_ExecutionTx) (ExecutionTxs_ExecutionTx_Tx : Tx ExecutionTxs_ExecutionTx (ExecutionRequest ExchangeKey InstrumentKey) ExecutionTxs_ExecutionTx_Error) (ExecutionRequest_from : (OrderEvent Kind ExchangeKey InstrumentKey) → ExecutionRequest ExchangeKey InstrumentKey) (ExecutionTxs_ExecutionTx_Error_Unrecoverable : Unrecoverable ExecutionTxs_ExecutionTx_Error) (self : Engine Clock State ExecutionTxs Strategy Risk) (request : OrderEvent Kind ExchangeKey InstrumentKey) : Except EngineError Unit :=
+  (match (ExecutionTxs_ExecutionTxMap.find self.execution_txs request.key.exchange) with
+  | Except.error err_1 => (Except.error (EngineError.Unrecoverable err_1))
+  | Except.ok try_1 =>
+    (let scrut_1 : Except ExecutionTxs_ExecutionTx_Error Unit := (ExecutionTxs_ExecutionTx_Tx.send (fun x_1 => x_1) try_1 (ExecutionRequest_from request))
+    (match scrut_1 with
+    | Except.ok () =>
+        (Except.ok ())
+    | Except.error error =>
+      (if ((ExecutionTxs_ExecutionTx_Error_Unrecoverable.is_unrecoverable error) = true) then
+          (Except.error (EngineError.Unrecoverable (UnrecoverableEngineError.ExecutionChannelTerminated (Rust.Str.mk []))))
+      else
+          (match scrut_1 with
+          | Except.error error =>
+              (Except.error (EngineError.Recoverable (RecoverableEngineError.ExecutionChannelUnhealthy (Rust.Str.mk []))))
+          | _ => Rust.unreachable)))))
+
+/-- generated from `impl SendRequests<ExchangeKey, InstrumentKey> for Engine :: fn send_requests` (barter/src/engine/action/send_requests.rs:53) -/
+@[gen_send_requests] def Engine.send_requests {Clock : Type} [DecidableEq Clock] {State : Type} [DecidableEq State] {ExecutionTxs : Type} [DecidableEq ExecutionTxs] {Strategy : Type} [DecidableEq Strategy] {Risk : Type} [DecidableEq Risk] {ExchangeKey : Type} [DecidableEq ExchangeKey] {InstrumentKey : Type} [DecidableEq InstrumentKey] {Kind : Type} [DecidableEq Kind] {ExecutionTxs_ExecutionTx : Type} [DecidableEq ExecutionTxs_ExecutionTx] {ExecutionTxs_ExecutionTx_Error : Type} [DecidableEq ExecutionTxs_ExecutionTx_Error] (ExecutionRequest_from : (OrderEvent Kind ExchangeKey InstrumentKey) → ExecutionRequest ExchangeKey InstrumentKey) (ExecutionTxs_ExecutionTxMap : ExecutionTxMap ExecutionTxs ExchangeKey InstrumentKey ExecutionTxs_ExecutionTx) (ExecutionTxs_ExecutionTx_Tx : Tx ExecutionTxs_ExecutionTx (ExecutionRequest ExchangeKey InstrumentKey) ExecutionTxs_ExecutionTx_Error) (ExecutionTxs_ExecutionTx_Error_Unrecoverable : Unrecoverable ExecutionTxs_ExecutionTx_Error) (self : Engine Clock State ExecutionTxs Strategy Risk) (requests : List (OrderEvent Kind ExchangeKey InstrumentKey)) : SendRequestsOutput Kind ExchangeKey InstrumentKey :=
+  (match (Rust.Iter.partition_result (List.map (fun request => (match (match (Engine.send_request ExecutionTxs_ExecutionTxMap ExecutionTxs_ExecutionTx_Tx ExecutionRequest_from ExecutionTxs_ExecutionTx_Error_Unrecoverable self request) with | Except.ok ok_1 => Except.ok ok_1 | Except.error err_1 => Except.error ((fun error => (request, error)) err_1)) with | Except.ok ok_2 => Except.ok ((fun _ => request) ok_2) | Except.error err_2 => Except.error err_2)) requests)) with
+  | (sent, errors) =>
+    (SendRequestsOutput.new (Rust.NoneOneOrMany.from_vec sent) (Rust.NoneOneOrMany.from_vec errors)))
 
 end BarterModel.Generated.Machines
